@@ -108,8 +108,21 @@ class World(WsWorld):
                 opts["perMessageCompressionAccept"] = (lambda r: PerMessageDeflateResponseAccept(r, max_message_size=Z)) \
                     if Z else (lambda r: PerMessageDeflateResponseAccept(r))
                 ext_resp = b"Sec-WebSocket-Extensions: permessage-deflate\r\n"
+        # the limits may be configured on the connection itself (attributes set on the protocol object before it is
+        # connected - the library copies a factory default only where the protocol has no value of its own), while the
+        # factory holds other values: the connection's own values decide, also when they are 0 / False
+        override = {}
+        if self.mode in ("recv", "send") and ch.flag("limits-set-on-the-connection-not-the-factory", 0.25):
+            override = {k: opts[k] for k in ("maxMessagePayloadSize", "maxFramePayloadSize", "failByDrop") if k in opts}
+            opts.update(maxMessagePayloadSize=ch.pick(LIMITS, "factory-maxMessage"), failByDrop=not cfg["failByDrop"])
+            if self.mode == "recv":
+                opts.update(maxFramePayloadSize=ch.pick(LIMITS, "factory-maxFrame"))
+            self.run.probe("limits-set-on-the-connection")
+        cfg["override"] = bool(override)
         fac.setProtocolOptions(**opts)
         e, peer = self.build_raw(fac, is_server)
+        for k, v in override.items():
+            setattr(e.p, k, v)
         e.monitor = SenderMonitor("any", deflate, DeflateCodec() if deflate else None)
         self.start(e)
         self.run.log("cfg", self.kind, sorted((k, repr(v)) for k, v in cfg.items()))
